@@ -3,9 +3,10 @@ Model of the x86-64 relaxation decision `ElfX86_64::new_relaxation`
 (/repo/libwild/src/elf_x86_64.rs) and of the byte rewriting `RelaxationKind::apply`
 (/repo/linker-utils/src/x86_64.rs). Core-only imports (linked into `wmdriver`).
 
-The Rust is mirrored arm by arm, including evaluation order, the unguarded `offset - n`
-look-behinds (debug profile: `attempt to subtract with overflow`; release profile: wraps and the
-following `.get(..)` answers `None`) and slice indexing panics.  `Res` makes the panics explicit.
+The Rust is mirrored arm by arm, including evaluation order, the `offset - n` look-behinds (the
+four that used to be unguarded — GOTPCRELX, TLSLD, TLSDESC second arm, `TlsGdForm::identify` — are
+`checked_sub(n)?` since fix c22-relax-lookbehind; `Model/RelaxGuard.lean` keeps the pre-fix arms for
+the C22 witnesses) and slice indexing panics.  `Res` makes the panics explicit.
 -/
 namespace Wild.X86Relax
 
@@ -127,11 +128,13 @@ inductive TlsGdForm where | regular | large
   deriving DecidableEq, Repr
 
 def identifyTlsGd (bs : List UInt8) (off : Nat) : Res (Option TlsGdForm) := do
-  let a ← usub off 4
+  -- `offset.checked_sub(4)?` (fix c22-relax-lookbehind: was an unguarded `offset - 4`)
+  if off < 4 then return none
+  let a := off - 4
   if getRange bs a off = some [0x66, 0x48, 0x8d, 0x3d]
       ∧ getRange bs (off + 4) (off + 8) = some [0x66, 0x66, 0x48, 0xe8] then
     return some .regular
-  let a3 ← usub off 3
+  let a3 := off - 3  -- `offset.checked_sub(3)?`; cannot fail here since `off ≥ 4`
   if getRange bs a3 off = some [0x48, 0x8d, 0x3d]
       ∧ getRange bs (off + 4) (off + 6) = some [0x48, 0xb8]
       ∧ getRange bs (off + 14) (off + 19) = some [0x48, 0x01, 0xd8, 0xff, 0xd0] then
@@ -179,7 +182,9 @@ def armRexGotpcrelx (c : Cfg) (isCode4 : Bool) (bs : List UInt8) (off : Nat) : R
 
 /-- arm `R_X86_64_GOTPCRELX`. -/
 def armGotpcrelx (c : Cfg) (bs : List UInt8) (off : Nat) : Res (Option Relaxation) := do
-  let a ← usub off 2
+  -- `offset.checked_sub(2)?` (fix c22-relax-lookbehind: was an unguarded `offset - 2`)
+  if off < 2 then return none
+  let a := off - 2
   match bs[a]? with
   | none => return none
   | some b =>
@@ -247,7 +252,9 @@ def armTlsGd (c : Cfg) (bs : List UInt8) (off : Nat) : Res (Option Relaxation) :
 /-- arm `R_X86_64_TLSLD if is_executable`. -/
 def armTlsLd (c : Cfg) (bs : List UInt8) (off : Nat) : Res (Option Relaxation) := do
   if c.exe then
-    let a ← usub off 3
+    -- `offset.checked_sub(3)?` (fix c22-relax-lookbehind)
+    if off < 3 then return none
+    let a := off - 3
     match getRange bs a off with
     | none => return none
     | some w =>
@@ -272,8 +279,10 @@ def armTlsDesc (c : Cfg) (isCode4 : Bool) (bs : List UInt8) (off : Nat) : Res (O
       return some ⟨.tlsDescToLocalExec (if isCode4 then 4 else 3), R_TPOFF32, c.static⟩
     return none
   if !isCode4 ∧ c.exe then
-    let a ← usub off 3
-    let e ← usub off 1
+    -- `offset.checked_sub(3)?..offset - 1` (fix c22-relax-lookbehind)
+    if off < 3 then return none
+    let a := off - 3
+    let e := off - 1
     let w := getRange bs a e
     if w = some [0x48, 0x8d] ∨ w = some [0x4c, 0x8d] then
       return some ⟨.tlsDescToInitialExec, R_GOTTPOFF, c.static⟩
@@ -287,6 +296,8 @@ def newRelaxation (rt : Nat) (bs : List UInt8) (off : Nat) (vf : Nat) (ok : OutK
   if vfIfunc vf then
     .ok (if rt = R_PC32 then some ⟨.noOp, R_PLT32, true⟩ else none)
   else if !sfExec sf then .ok none
+  -- `if offset > section_bytes.len() { return None; }` (fix c22-relax-lookbehind)
+  else if off > bs.length then .ok none
   else if rt = R_REX_GOTPCRELX then armRexGotpcrelx c false bs off
   else if rt = R_CODE_4_GOTPCRELX then armRexGotpcrelx c true bs off
   else if rt = R_GOTPCRELX then armGotpcrelx c bs off
